@@ -180,7 +180,12 @@ func urlWithQueryParams(redirectURI string, params map[string]string) string {
 		return redirectURI
 	}
 
-	parsedURL, _ := url.Parse(redirectURI)
+	parsedURL, err := url.Parse(redirectURI)
+	if err != nil {
+		// Redirect URIs that cannot be parsed are refused when the request is
+		// validated. Should one get here, it is left as is.
+		return redirectURI
+	}
 	query := parsedURL.Query()
 	for param, value := range params {
 		query.Set(param, value)
